@@ -94,3 +94,133 @@ def c08(ctx, replay):
                          "2^31/2^40/2^63-1 and 1 MiB/8 MiB zero bombs (allocation measured sequentially); x role x read buffer {7,4096,70000}; "
                          "distinct = distinct TLC rows")
     ctx.assumptions += ["heap use is a measured TotalAlloc delta with 512 KiB fixed slack, not a modelled quantity"]
+
+
+# ---------------------------------------------------------------------------------------------
+# Concurrent core: WSConn model (M) + seeded concurrent executions validated by TraceConn/TraceWire (C)
+
+from core import trace_validate, absorb_rejections
+
+SIG_C05 = {"lock-acquired-while-held", "lock-acquired-after-connection-closed", "forcelock-acquired-while-held",
+           "frame-step-without-frame-lock", "frame-emitted-without-frame-lock", "data-frame-without-message-lock",
+           "data-frame-by-non-owner-of-message", "saw-closed-before-close", "closed-twice", "closed-post-without-pre",
+           "close-bookkeeping", "new-message-inside-message", "continuation-without-message",
+           "peer-received-corrupt-message", "message-delivered-twice", "per-writer-order-broken",
+           "acknowledged-message-never-arrived", "library-reader-message-mismatch", "data-race", "panic"}
+SIG_C16 = {"second-close-frame", "data-frame-after-close-frame"}
+SIG_C02 = {"masking-wrong-for-role", "rsv2-or-rsv3-set", "length-not-minimally-encoded", "unknown-opcode",
+           "fragmented-control-frame", "control-frame-longer-than-125", "rsv1-on-control-frame", "close-body-not-sendable",
+           "rsv1-on-continuation", "rsv1-without-negotiated-deflate", "new-message-inside-message", "continuation-without-message",
+           "header-undecodable", "length-beyond-2^31", "mask-key-not-refreshed", "second-close-frame", "data-frame-after-close-frame",
+           "peer-received-corrupt-message"}
+SIG_C15 = {"ping-returned-nil-without-its-own-pong", "pong-matched-against-wrong-ping-set", "pong-does-not-echo-next-ping"}
+SIG_C20 = {"library-goroutine-alive-when-close-returned", "timeoutloop-exited-with-connection-open",
+           "closeread-goroutine-exited-with-connection-open"}
+SIG_C10 = {"timeoutloop-received-other-write-context", "write-context-handoff-never-received", "timeoutloop-received-unsent-write-context",
+           "timeoutloop-received-other-read-context", "read-context-handoff-never-received", "timeoutloop-received-unsent-read-context",
+           "context-of-successful-call-closed-the-connection", "timeoutloop-fired-unarmed-read-context", "timeoutloop-fired-unarmed-write-context"}
+SIG_C09 = {"close-needed-the-15s-goroutine-backstop", "conc-actors-pending", "conc-reader-pending", "conc-peer-no-eof",
+           "close-took-too-long", "closenow-returned-error"}
+SIG_C06 = {"close-returned-with-connection-open", "unsendable-close-code-marshalled", "invalid-close-code-accepted",
+           "close-frame-after-marshal-error", "write-succeeded-after-close", "ping-succeeded-after-close",
+           "read-succeeded-after-close", "close-after-close-not-ErrClosed", "closenow-after-close-not-ErrClosed"}
+
+
+def wsconn_model(ctx, cfgs):
+    for c in cfgs:
+        rec, _ = ctx.tlc("WSConn", "WSConn.%s.cfg" % c, name="WSConn-" + c, timeout=3000)
+        ctx.count_model(rec)
+
+
+def wsconn_deviation_regression(ctx, devs):
+    """The model must catch the pre-fix behaviour (guards against a vacuous model)."""
+    caught = {}
+    for d in devs:
+        rec, out = ctx.tlc("WSConn", "WSConn.dev-%s.cfg" % d, expect_ok=False, name="WSConn-dev-" + d)
+        caught[d] = "is violated" in out
+        if not caught[d]:
+            raise Infra("model regression: deviation %s is no longer caught by TLC (model became vacuous)" % d)
+    ctx.extra["model_catches_deviation"] = caught
+
+
+def conc_campaign(ctx, n, only, extra_args=()):
+    conn, wire = ctx.path("conn.ndjson"), ctx.path("wire.ndjson")
+    rep = ctx.drive("conc", ["-n", n, "-seed", ctx.seed, "-conn-trace", conn, "-wire-trace", wire] + list(extra_args), timeout=3000)
+    ctx.absorb(rep, only=only)
+    rej, _ = trace_validate(ctx, "TraceConn", "TraceConn.cfg", conn, name="TraceConn")
+    absorb_rejections(ctx, rej, "TraceConn", conn, only=only)
+    rej, _ = trace_validate(ctx, "TraceWire", "TraceWire.cfg", wire, name="TraceWire")
+    absorb_rejections(ctx, rej, "TraceWire", wire, only=only)
+    ctx.extra["rule"] = ("seeded concurrent executions of the real Conn (1-3 writers using Write and streaming Writer, 0-2 pingers, "
+                         "reader loop / CloseRead / none, closer in {Close, CloseNow, context cancel, peer Close, none}) against an "
+                         "independent raw peer over a chunking, optionally zero-window transport with yields at hooks; every hook event "
+                         "validated by TraceConn.tla, every frame the peer saw until EOF by TraceWire.tla; distinct = distinct "
+                         "(role, mode, actors, closer, echo, window) configurations")
+
+
+@check("C16")
+def c16(ctx, replay):
+    wsconn_model(ctx, ["quick"] if ctx.quick() else ["quick", "thorough"])
+    wsconn_deviation_regression(ctx, ["DataAfterClose", "EchoAfterOwnClose"])
+    conc_campaign(ctx, 300 if ctx.quick() else 4000, SIG_C16)
+    ctx.assumptions += ["raw peer frame parser cross-checked by TLC on the raw header bytes", "schedules are sampled (seeded), the model is exhaustive within its constants"]
+
+
+@check("C05")
+def c05(ctx, replay):
+    wsconn_model(ctx, ["quick"] if ctx.quick() else ["quick", "thorough"])
+    conc_campaign(ctx, 300 if ctx.quick() else 4000, SIG_C05)
+    race_campaign(ctx, 150 if ctx.quick() else 1500)
+    ctx.assumptions += ["'no data race' is decided by the Go race detector on the same executions with the hook sink nil (rule R10)"]
+
+
+def race_campaign(ctx, n):
+    """Auxiliary oracle for the data-race clause: same executions, race detector on, sink nil."""
+    import subprocess
+    out = ctx.path("wsdrive-race")
+    p = subprocess.run(["go", "build", "-race", "-tags", "verif", "-o", out, "./cmd/wsdrive"], cwd=os.path.join(os.environ.get("VERIF_HOME", "/verif"), "harness"),
+                       stdout=subprocess.PIPE, stderr=subprocess.STDOUT, text=True)
+    if p.returncode != 0:
+        raise Infra("race build failed: " + p.stdout[-2000:])
+    logp = ctx.path("race")
+    e = dict(os.environ)
+    e["GORACE"] = "halt_on_error=0 log_path=%s" % logp
+    p = subprocess.run(["timeout", "3000", out, "conc", "-n", str(n), "-seed", str(ctx.seed), "-notrace", "-par", "6"],
+                       stdout=subprocess.PIPE, stderr=subprocess.PIPE, text=True, env=e, cwd=ctx.scratch)
+    if p.returncode not in (0, 66):
+        raise Infra("race run exited %d: %s" % (p.returncode, p.stderr[-1500:]))
+    import glob
+    reports = 0
+    first = None
+    for f in glob.glob(logp + ".*"):
+        txt = open(f).read()
+        for blk in txt.split("WARNING: DATA RACE")[1:]:
+            if "nhooyr.io/websocket." in blk:
+                reports += 1
+                first = first or blk[:3000]
+    try:
+        rep = json.loads(p.stdout.strip().splitlines()[-1])
+        ctx.absorb(rep, only=SIG_C05)
+    except Exception:
+        raise Infra("race run produced no report")
+    ctx.extra["race_detector_runs"] = n
+    ctx.extra["race_reports_in_library"] = reports
+    if reports:
+        rp = ctx.path("race-report.txt")
+        keep = os.path.join(os.environ.get("VERIF_HOME", "/verif"), "replays", ctx.pid)
+        os.makedirs(keep, exist_ok=True)
+        dst = os.path.join(keep, "race-report.txt")
+        open(dst, "w").write(first)
+        ctx.violations.append(("data-race", reports, {"sig": "data-race", "detail": first[:600], "case": {"report": dst}}))
+
+
+@check("C15")
+def c15(ctx, replay):
+    wsconn_model(ctx, ["quick"] if ctx.quick() else ["quick", "thorough"])
+    conc_campaign(ctx, 300 if ctx.quick() else 3000, SIG_C15)
+
+
+@check("C20")
+def c20(ctx, replay):
+    wsconn_model(ctx, ["quick"] if ctx.quick() else ["quick", "thorough"])
+    conc_campaign(ctx, 300 if ctx.quick() else 3000, SIG_C20)
